@@ -188,8 +188,9 @@ def analyse(case):
     has_action = set(static_names)
     groups = set()
     utd, fails = set(), set()
+    absent = set(case.get('absent') or [])      # files not pre-created: a task that builds one is not up-to-date
     for t in case['static']:
-        if t['utd']:
+        if t['utd'] and not (absent & set(t['targets'])):
             utd.add(t['name'])
         if t['fails']:
             fails.add(t['name'])
@@ -203,7 +204,7 @@ def analyse(case):
                 for x in d['deps'] + d['fileDep'] + d['targets']:
                     nid(x)
                 if not d['group']:
-                    if d.get('utd'):
+                    if d.get('utd') and not (absent & set(d['targets'])):
                         utd.add(d['name'])
                     if d.get('fails'):
                         fails.add(d['name'])
@@ -429,6 +430,8 @@ def _prepare_fs(case):
         for d in lst:
             files.update(d['targets'])
     for f in files:
+        if f in (case.get('absent') or []):
+            continue        # a selected target that does not exist yet (fresh tree / after `doit clean`)
         with open(f, 'w') as fh:
             fh.write('initial\n')
 
@@ -630,6 +633,11 @@ def gen_case(rng, runner=None, knobs=None):
         cr = {'fname': fname, 'executed': executed, 'creates': creates, 'regex': regex, 'yields': yields}
         creators.append(cr)
         created_so_far += placeholders(cr)
+    if len(creators) >= 2 and rng.random() < k.get('p_shared_regex', 0.2):
+        # every creator claims every `o…` target: a selected target is matched by several creators, the producer may be
+        # the second or third of them (the earlier ones are evaluated and do not produce it)
+        for cr in creators:
+            cr['regex'] = 'o.*'
     # late static tasks: depend on several placeholders (nodes for two placeholders exist before the creator runs)
     allph = [p for cr in creators for p in placeholders(cr)]
     if rng.random() < k.get('p_late', 0.5):
@@ -658,6 +666,15 @@ def gen_case(rng, runner=None, knobs=None):
     elif runner == 'process':
         case['nproc'] = 2
         case['policy'] = {'kind': 'seeded', 'seed': rng.randrange(1 << 30)}
+    # selected targets that do not exist yet (fresh tree): only files no created task has as file_dep (a consumer
+    # without an implicit dependency on the builder would fail on the missing file -- that is C03/C10's subject)
+    consumed = set(f for cr in creators for y in cr['yields'] for f in (y.get('file_dep') or []))
+    built = set(t for cr in creators for y in cr['yields'] for t in y['targets'])
+    words = set(sel or [])
+    if rng.random() < k.get('p_absent', 0.55):
+        ab = sorted(w for w in words if w in built and w not in consumed)
+        if ab:
+            case['absent'] = ab
     if runner != 'process' and rng.random() < k.get('p_multi', 0.22):
         # the SAME namespace object is run again in this process (DoitMain.run twice / doit.api.run_tasks twice): same or
         # another selection; nothing a run did to the loaders may survive it
@@ -691,6 +708,8 @@ def render(case):
                                                      ' file_dep=%s' % y['file_dep'] if y.get('file_dep') else '',
                                                      ' utd' if y['utd'] else '',
                                                      ' FAILS' if y['fails'] else '') for y in cr['yields']]))
+    if case.get('absent'):
+        lines.append('files that do not exist before the run: %s' % case['absent'])
     lines.append('doit %s' % ' '.join(argv_of(case)))
     for r in case.get('runs') or []:
         lines.append('then, same process and namespace: doit %s' % ' '.join(argv_of(dict(case, sel=r['sel'], auto=r.get('auto')))))
@@ -947,6 +966,10 @@ def _variants(case):
                 c = copy.deepcopy(case)
                 del c['runs'][i]['sel'][j]
                 yield c
+    if case.get('absent'):
+        c = copy.deepcopy(case)
+        del c['absent']
+        yield c
     for key in ('cont', 'auto'):
         if case.get(key):
             c = copy.deepcopy(case)
@@ -1025,6 +1048,20 @@ def count_case(st, case, obs, ans):
             for f in y.get('file_dep') or []:
                 st.count('created-file_dep:%s' % ('static-target' if f in st_t else 'same-creator' if f in own
                                                  else 'other-creator'))
+    if case.get('absent'):
+        st.count('selected-target-file-absent')
+    if case['sel']:
+        an0 = analyse(case)
+        for w in case['sel']:
+            ms = [l for l, x in an0['matches'] if x == w]
+            if case.get('auto'):
+                ms = sorted(set(ms) | set(l for l, (p_, c_) in enumerate(an0['loaders']) if not case['creators'][c_]['regex']))
+            if len(ms) >= 2:
+                prod = [i for i, l in enumerate(ms)
+                        if any(w in d['targets'] for d in make_tasks(case['creators'][an0['loaders'][l][1]], an0['loaders'][l][0]))]
+                st.count('regex-word:matched-by>=2-loaders,%s%s' % (
+                    'producer-first' if prod[:1] == [0] else 'producer-later' if prod else 'no-producer',
+                    ',file-absent' if w in (case.get('absent') or []) else ''))
     st.count('runs-in-one-process:%d' % len(runs_of(case)))
     if case.get('runs'):
         for r in case['runs']:
